@@ -297,8 +297,8 @@ def _f_coll(case):
 def _f_cycle(case):
     """cyclic class graph (tree C only, no strategy): which link of the cycle is late-bound -- and so dispatched by run-time
     class -- depends on which class was used first"""
-    return (case.get("stream") == "strategies" and case.get("trees") == ["C"] and PROBES.get(case.get("probe"), ("",))[0] == "C"
-            and any(o[0] == "warm" for o in case["history"]))
+    # (no `warm` step is needed: the used converter is probed at every cut point of the history, and each probe is a use)
+    return case.get("stream") == "strategies" and case.get("trees") == ["C"] and PROBES.get(case.get("probe"), ("",))[0] == "C"
 
 
 CFGS = [{"klass": "Converter", "detailed": True}, {"klass": "Converter", "detailed": False}, {"klass": "BaseConverter", "detailed": True}]
